@@ -49,6 +49,17 @@ var c09Table = []c09Row{
 	{fn: "pkg/crypto.(Bits).read", kind: "conv", desc: "float64→int of math.Floor(",
 		reason:      "i/8 of a loop counter bounded by len(keysList); see the index row",
 		callerFacts: []string{" < builtin:len(p0)"}},
+	// ---- rate limiter: counters are registered together with the handlers
+	{fn: "pkg/p2p.(*rateLimit).increaseCounter", kind: "nilentry", desc: "p0.rpcMessageCounters[p1]",
+		reason:      "RegisterRPCHandler adds the handler and its counter together (and fails when the counter exists); every caller consults rpcHandlers for the same procedure name first and returns when it is not registered",
+		callerFacts: []string{"^p0.rpcHandlers["}},
+	{fn: "pkg/p2p.(*rateLimit).checkLimit", kind: "nilentry", desc: "p0.rpcMessageCounters[p1]",
+		reason:      "as for increaseCounter: called only for a procedure whose handler lookup succeeded",
+		callerFacts: []string{"^p0.rpcHandlers["}},
+	// ---- transaction pool: index invariant
+	{fn: "pkg/txpool.(*TransactionPool).removeLocked", kind: "nilentry", desc: "p0.perAccount[",
+		reason: "pool invariant kept by every writer (checked by C14's index co-update rules): a transaction present in allTransactions has a sender list in perAccount; the lookup is reached only after the allTransactions lookup for this ID succeeded, under the pool's write lock",
+		facts:  []string{"^p0.allTransactions["}},
 	// ---- generic helpers
 	{fn: "pkg/collection.BinarySearch[", kind: "index", desc: ">> 1))]", reason: algo + "low < mid < high with low >= -1 and high <= len(list), so 0 <= mid < len(list)"},
 	{fn: "pkg/collection.CommonPrefix[", kind: "index", desc: "phi(p0, p1)[", reason: algo + "the loop ranges over the shorter slice and indexes the longer one"},
@@ -124,10 +135,19 @@ func c09FindRow(s PanicSite) (int, *c09Row) {
 	return -1, nil
 }
 
+// fragMatch: a fragment matches anywhere in the fact; written with a leading ^ it must start
+// the fact (so the negated fact "!x" does not satisfy a requirement for "x").
+func fragMatch(fact, frag string) bool {
+	if strings.HasPrefix(frag, "^") {
+		return strings.HasPrefix(fact, frag[1:])
+	}
+	return strings.Contains(fact, frag)
+}
+
 func c09RowHolds(p *Program, ff *FuncFacts, s PanicSite, row *c09Row, via map[*ssa.Function][]string) (bool, string) {
 	has := func(fs []Fact, frag string) bool {
 		for _, f := range fs {
-			if strings.Contains(f.String(), frag) {
+			if fragMatch(f.String(), frag) {
 				return true
 			}
 		}
@@ -157,7 +177,7 @@ func c09RowHolds(p *Program, ff *FuncFacts, s PanicSite, row *c09Row, via map[*s
 					continue
 				}
 				frag := frag
-				if !has(cfs, frag) && !cf.EveryPathHas(site.Call.Block(), func(f Fact) bool { return strings.Contains(f.String(), frag) }) {
+				if !has(cfs, frag) && !cf.EveryPathHas(site.Call.Block(), func(f Fact) bool { return fragMatch(f.String(), frag) }) {
 					return false, "call site " + p.InstrPos(site.Call) + " in " + FuncKey(site.Fn) + " lacks the fact «" + frag + "»; facts there: " + factsStr(cfs)
 				}
 			}
